@@ -2,7 +2,7 @@
 from qty_common import QTY_TRUSTED
 
 CFG = dict(
-    lean_modules=["NumbatModel.Props.C05", "NumbatModel.Inst.Real", "NumbatModel.Oblig.UnitTable"],
+    lean_modules=["NumbatModel.Props.C05", "NumbatModel.Inst.Real", "NumbatModel.Oblig.UnitTable", "NumbatModel.Oblig.SimplifyTotal"],
     driver="drv_c05",
     harness="c05",
     gens=["gen_units:generate"],
@@ -13,9 +13,10 @@ CFG = dict(
     ],
     assumptions=[
         "PosTbl: every conversion factor of the unit table is positive",
-        "totality (the unwrap of heuristic 3 never panics) is not a theorem: it needs the canonical-form theory of base "
-        "representations; a panic is detected by the correspondence (model returns `panic` where the grouped conversion "
-        "fails) and by the oracle on the implementation",
+        "simplify_total / simplifyReg_total (the unwrap of heuristic 3 cannot fail) assume WF (definitions refer to "
+        "earlier rows) and NamesDistinct; both are kernel-checked on the regenerated prelude table and the theorem is "
+        "instantiated there (Oblig/SimplifyTotal.lean). They are about the repaired code (fix 275b2e3): the model "
+        "takes `removed_exponent` from the canonical base representation, as the code does now",
         "magnitude oracle skipped when the units' conversion factors span more than 100 decimal orders of magnitude "
         "(Planck units to high powers): intermediate factors leave the normal f64 range",
     ],
@@ -26,12 +27,19 @@ CLAIM = dict(
          "full_simplify (heuristics 1-3, with the loop invariant of the grouping heuristic h3_fold) and the "
          "registry-based simplification preserve the physical magnitude (simplify_phys, simplifyReg_phys); neither "
          "touches a value whose unit was chosen by an explicit conversion (simplify_respects_flag, "
-         "simplifyReg_respects_flag); `x -> U` is displayed in exactly U (convert_not_simplified). The same "
+         "simplifyReg_respects_flag); `x -> U` is displayed in exactly U (convert_not_simplified). For every table whose "
+         "definitions refer to earlier rows only and whose rows have distinct names, full_simplify and the "
+         "registry-based simplification are total — the `unwrap` of the grouped conversion of heuristic 3 cannot "
+         "panic (simplify_total, simplifyReg_total; proof: the factors of a group have equal sort keys, a sort key is "
+         "the canonical base representation scaled by a non-zero constant, so the base vectors of a group are "
+         "proportional in the ratio of their first exponents, the target `rep^e` has the dimension vector of the "
+         "group, and same-dimension conversions succeed by convComplete; Lemmas/QtySimplify.lean, about 450 lines); "
+         "instantiated at the regenerated prelude table (prelude_simplify_total). The same "
          "definitions at Float agree bit-for-bit with Quantity::full_simplify, with the VM's simplify_quantity, and "
          "with the value the real interpreter displays for generated expressions (raw global vs displayed result).",
     design_ref="DESIGN.md section 5 C05",
-    note="Exact-arithmetic theorems; the 'never panics' part of the property is covered by correspondence and "
-         "oracle only (the defect `2 aa * 3 bb * 1 kg` with permuted unit definitions was repaired by a fix: commit and "
-         "stays in the corpus).",
-    technique="Lean 4 proof (loop invariant over unit groups) over an abstract lawful field + bit-exact differential correspondence at Float",
+    note="Exact-arithmetic theorems. The 'never panics' part of the property is now a theorem of the repaired code "
+         "(simplify_total); the defect `2 aa * 3 bb * 1 kg` with permuted unit definitions was found by this check, "
+         "repaired by a fix: commit, and stays in the corpus (reverting the fix breaks the correspondence: seed C05-B).",
+    technique="Lean 4 proof (loop invariant over unit groups; totality via uniqueness of canonical base representations) over an abstract lawful field + bit-exact differential correspondence at Float",
 )
